@@ -40,9 +40,9 @@
 (* exponent in {0,1,bias-1,bias,bias+1,max-1,max} x mantissa in {0, 1,     *)
 (* msb, msb|1, all ones, alternating} (x86: x explicit integer bit 0/1,    *)
 (* which yields pseudo-denormals, unnormals, pseudo-infinities and         *)
-(* pseudo-NaNs); for ppc_fp128 all pairs of the 84 double boundary         *)
-(* patterns.  Enumeration is in Next (not Init) so that all workers share  *)
-(* it.                                                                     *)
+(* pseudo-NaNs; with Walk also every single-bit mantissa); for ppc_fp128   *)
+(* all pairs of the 84 double boundary patterns.  Enumeration is in Next   *)
+(* (not Init) so that all workers share it.                                *)
 (*                                                                         *)
 (* Properties (invariants over the pattern states):                        *)
 (*   RoundTrip     FloatDenoteHex(kind, HexSpelling(kind, b)) = Read(b)    *)
@@ -72,6 +72,7 @@ CONSTANTS AsImplemented,  \* BOOLEAN: model the known deviations of the library
           Emit,           \* BOOLEAN: job states write their vectors
           ChunkSize,      \* half patterns per job; divides 65536
           ChunkStride,    \* every ChunkStride-th chunk is enumerated (1 = all 65 536 patterns)
+          Walk,           \* BOOLEAN: boundary mantissas also include every single-bit pattern
           Kinds           \* subset of the six kinds to enumerate
 
 HalfChunks == {c \in 0..(65536 \div ChunkSize - 1) : c % ChunkStride = 0}
@@ -276,24 +277,35 @@ Exps(k) == <<0, 1, Bias(k) - 1, Bias(k), Bias(k) + 1, MaxExp(k) - 1, MaxExp(k)>>
 Mants(w) == <<Zeros(w), Zeros(w - 1) \o <<1>>, <<1>> \o Zeros(w - 1),
               <<1>> \o Zeros(w - 2) \o <<1>>, Ones(w), Alt(w)>>
 
-\* the i-th of the 84 boundary patterns of an IEEE kind, i in 1..84
-Boundary(k, i) == LET s == (i - 1) \div 42  ei == ((i - 1) % 42) \div 6 + 1  mi == ((i - 1) % 6) + 1 IN
-                  Mk(k, s, Exps(k)[ei], Mants(ManW(k))[mi])
-\* x86_fp80: 168 patterns, explicit integer bit varied
-BoundaryX87(i) == LET s == (i - 1) \div 84  ei == ((i - 1) % 84) \div 12 + 1
-                      j == ((i - 1) % 12) \div 6  mi == ((i - 1) % 6) + 1 IN
-                  Mk("x86_fp80", s, Exps("x86_fp80")[ei], <<j>> \o Mants(63)[mi])
+\* with Walk the mantissa set also has every single-bit pattern ("walking one")
+FracW(k) == IF k = "x86_fp80" THEN 63 ELSE ManW(k)
+MantCount(k) == 6 + (IF Walk THEN FracW(k) ELSE 0)
+MantAt(k, mi) == IF mi <= 6 THEN Mants(FracW(k))[mi] ELSE [j \in 1..FracW(k) |-> IF j = mi - 6 THEN 1 ELSE 0]
+
+\* the i-th boundary pattern of an IEEE kind, i in 1..BoundaryCount(k): sign, exponent, mantissa
+BoundaryCount(k) == 2 * 7 * MantCount(k) * (IF k = "x86_fp80" THEN 2 ELSE 1)
+Boundary(k, i) == LET per == MantCount(k)
+                      s == (i - 1) \div (7 * per)  ei == ((i - 1) % (7 * per)) \div per + 1  mi == ((i - 1) % per) + 1 IN
+                  Mk(k, s, Exps(k)[ei], MantAt(k, mi))
+\* x86_fp80: the explicit integer bit is varied as well
+BoundaryX87(i) == LET per == MantCount("x86_fp80")
+                      s == (i - 1) \div (14 * per)  ei == ((i - 1) % (14 * per)) \div (2 * per) + 1
+                      j == ((i - 1) % (2 * per)) \div per  mi == ((i - 1) % per) + 1 IN
+                  Mk("x86_fp80", s, Exps("x86_fp80")[ei], <<j>> \o MantAt("x86_fp80", mi))
+\* the 84 double patterns used for both halves of ppc_fp128 (never with the walking ones)
+Boundary84(i) == LET s == (i - 1) \div 42  ei == ((i - 1) % 42) \div 6 + 1  mi == ((i - 1) % 6) + 1 IN
+                 Mk("double", s, Exps("double")[ei], Mants(52)[mi])
 
 \* jobs: [kind, p]; half: p = chunk number; ppc_fp128: p = index of the first double; others p = 0
 JobSet == {[kind |-> "half", p |-> c] : c \in (IF "half" \in Kinds THEN HalfChunks ELSE {})}
           \cup {[kind |-> k, p |-> 0] : k \in Kinds \cap {"float", "double", "fp128", "x86_fp80"}}
           \cup {[kind |-> "ppc_fp128", p |-> i] : i \in (IF "ppc_fp128" \in Kinds THEN 1..84 ELSE {})}
 
-JobLen(job) == CASE job.kind = "half" -> ChunkSize [] job.kind = "x86_fp80" -> 168 [] OTHER -> 84
+JobLen(job) == CASE job.kind = "half" -> ChunkSize [] job.kind = "ppc_fp128" -> 84 [] OTHER -> BoundaryCount(job.kind)
 PatternAt(job, i) ==
   CASE job.kind = "half"      -> Bits(job.p * ChunkSize + i - 1, 16)
     [] job.kind = "x86_fp80"  -> BoundaryX87(i)
-    [] job.kind = "ppc_fp128" -> Boundary("double", job.p) \o Boundary("double", i)
+    [] job.kind = "ppc_fp128" -> Boundary84(job.p) \o Boundary84(i)
     [] OTHER                  -> Boundary(job.kind, i)
 
 ----------------------------------------------------------------------------
@@ -333,7 +345,7 @@ Flatten(ss, k) == IF k = 0 THEN <<>> ELSE Flatten(ss, k - 1) \o ss[k]
 
 \* for half only every InexactStride-th pattern carries the two inexact vectors (they are
 \* checked by TLC on every pattern; LLVM only needs a sample to confirm the rule)
-InexactStride == 64
+InexactStride == 256
 VectorsOfJob(job) ==
   LET vs == [i \in 1..JobLen(job) |->
                LET all == VectorsOf(job.kind, PatternAt(job, i)) IN
